@@ -817,6 +817,8 @@ def inline_methods_by_name(index: RepoIndex, expr: ast.AST, depth: int = 3,
                     'union', 'extend', 'insert', 'remove', 'clear', 'any', 'all', 'max', 'min',
                     'sum', 'astype', 'reshape', 'tolist', 'choice', 'integers', 'random'}
     by_name: Dict[str, List[Func]] = {}
+    module_aliases = {n for mod in index.modules.values() for n, imp in mod.imports.items()
+                      if imp[0] == 'module'}
     for mod in index.modules.values():
         if not mod.relpath.startswith('gym_gridverse/'):
             continue
@@ -833,6 +835,8 @@ def inline_methods_by_name(index: RepoIndex, expr: ast.AST, depth: int = 3,
                 return c
             if isinstance(c.func.value, ast.Name) and c.func.value.id in ('self', 'cls'):
                 return c
+            if isinstance(c.func.value, ast.Name) and c.func.value.id in module_aliases:
+                return c        # `np.tile(..)`: a library function, not a method
             cands = by_name.get(c.func.attr, [])
             if len(cands) != 1:
                 return c
@@ -865,6 +869,27 @@ def inline_methods_by_name(index: RepoIndex, expr: ast.AST, depth: int = 3,
             if comp_targets & free:
                 return c
             out = _SubstNames(bound).visit(copy.deepcopy(e))
+            return inline_methods_by_name(index, out, depth - 1, exclude)
+
+        def visit_Attribute(self, a: ast.Attribute):
+            a = self.generic_visit(a)
+            # a property added after the pinned tree (`space.dtype`), defined by exactly one
+            # class of the package as a pure one-expression getter
+            from .pinned_names import METHODS
+            if not isinstance(a.ctx, ast.Load) or a.attr in METHODS or a.attr in exclude or \
+                    a.attr.startswith('__') or \
+                    (isinstance(a.value, ast.Name) and a.value.id in module_aliases) or \
+                    (isinstance(a.value, ast.Name) and a.value.id in ('self', 'cls')):
+                return a
+            cands = by_name.get(a.attr, [])
+            if len(cands) != 1 or not cands[0].is_property():
+                return a
+            fn = cands[0].node
+            params = [x.arg for x in fn.args.posonlyargs + fn.args.args]
+            e = pure_body_expr(fn)
+            if e is None or len(params) != 1:
+                return a
+            out = _SubstNames({params[0]: a.value}).visit(copy.deepcopy(e))
             return inline_methods_by_name(index, out, depth - 1, exclude)
     return ast.fix_missing_locations(T().visit(copy.deepcopy(expr)))
 
